@@ -114,7 +114,7 @@ def main(mod, argv=None, collect=None):
         "coverage": {
             "programs": tot["models"], "disagreements_checked": tot["validated"], "samples": samples or [{"note": "none"}],
             "explanation": getattr(mod, "EXPLANATION", ""),
-            "engine": "mip2smt: the optimisation model built by the real scheduler code is captured at optimize() time and translated to z3; properties are asserted over ALL its solutions",
+            "engine": getattr(mod, "ENGINE", "mip2smt: the optimisation model built by the real scheduler code is captured at optimize() time and translated to z3; properties are asserted over ALL its solutions"),
             "instances": len(specs), "instances_without_model": tot["skipped"], "solver_queries": tot["queries"], "unsat": tot["unsat"], "sat": tot["sat"],
             "solver_unknown": tot["unknown"], "solver_seconds": round(tot["solver_s"], 2), "obligations_checked": checked,
             "bounds": getattr(mod, "BOUNDS", ""), "outside_claim": getattr(mod, "OUTSIDE", ""),
